@@ -81,6 +81,36 @@ func main() {
 	}
 	evidenceDirOverride = *evdir
 	seed, _ := strconv.Atoi(os.Getenv("VERIF_SEED"))
+	if *prop == "all" {
+		// self-test convenience: one load, every registered property
+		start := time.Now()
+		p, err := LoadProgram(LoadOpts{RepoDir: *repo, GOARCH: *goarch})
+		if err != nil {
+			fmt.Printf("LOAD FAILURE: %v\n", err)
+			os.Exit(1)
+		}
+		var ids []string
+		for id := range registry {
+			ids = append(ids, id)
+		}
+		sort.Strings(ids)
+		rc := 0
+		for _, id := range ids {
+			c := NewCtx(p, id, *tier)
+			func() {
+				defer func() {
+					if r := recover(); r != nil {
+						c.Bad(id+".panic", "checker", "-", fmt.Sprintf("checker panic: %v\n%s", r, debug.Stack()))
+					}
+				}()
+				registry[id](c)
+			}()
+			if r := c.Finish(*verif, start, seed, buildExplanation(c)); r != 0 {
+				rc = 1
+			}
+		}
+		os.Exit(rc)
+	}
 	f, ok := registry[*prop]
 	if !ok {
 		fmt.Printf("unknown property %q\n", *prop)
